@@ -213,10 +213,21 @@ macro_rules
         Bool.not_true, Bool.not_false, Bool.true_or, Bool.or_true, Bool.false_or, Bool.or_false, Bool.true_and,
         Bool.and_true, Bool.false_and, Bool.and_false, decide_true, decide_false, reduceCtorEq, $ls,*])
 
+/-- `WriteDirect` at the end of a no-copy writer: whatever expression the generated code passes as the remaining
+    capacity, it records the value of that expression -/
+theorem wd_close {ν : Type} {J : NocopyI ν} {enc : Directs → Option ν} {x : ν} {v : Bytes} {ds : Directs}
+    (hstep : ∀ n : Int, ∃ er x', J.writeDirect x v n = .ok (er, x') ∧ enc (ds ++ [(v, n.toNat)]) = some x')
+    (B : Bytes) (r : Int) (N : Int) (m : Nat) (hN : N.toNat = m) :
+    (J.writeDirect x v N).bind (fun t => (.ok (B, some t.2, r) : GM (Bytes × Option ν × Int))) =
+      .ok (B, enc (ds ++ [(v, m)]), r) := by
+  obtain ⟨er, x', g1, g2⟩ := hstep N
+  rw [g1, Out.bind_ok, ← hN, g2]
+
 set_option hygiene false in
 /-- the shared proof of the two no-copy writers: `F` is the generated function, `G` the copying writer it falls back to -/
 macro "nocopy_nf" F:ident Gnf:ident : tactic => `(tactic| (
   have hl : len v = (v.length : Int) := rfl
+  have hsl : sb.length ≤ (pre ++ sb).length := by simp
   by_cases c : o + 4 ≤ sb.length
   · cases w with
     | false =>
@@ -227,9 +238,12 @@ macro "nocopy_nf" F:ident Gnf:ident : tactic => `(tactic| (
       rw [he]
       bsimp [hg, c, hl]
     | true =>
-      obtain ⟨x, er, x', h1, h2, h3⟩ := H.step rfl ds v ((sb.length : Int) - ((o + 4 : Nat) : Int))
-      have e2 : ((sb.length : Int) - ((o + 4 : Nat) : Int)).toNat = sb.length - o - 4 := by omega
-      rw [e2] at h3
+      obtain ⟨x, _, _, h1, _, _⟩ := H.step rfl ds v 0
+      have hstep : ∀ n : Int, ∃ er x', J.writeDirect x v n = .ok (er, x') ∧ enc (ds ++ [(v, n.toNat)]) = some x' := by
+        intro n
+        obtain ⟨y, er, x', g1, g2, g3⟩ := H.step rfl ds v n
+        rw [h1] at g1; cases g1
+        exact ⟨er, x', g2, g3⟩
       by_cases c2 : v.length < 4096
       · have hg := $Gnf pre sb o v h hlen
         rw [if_pos c] at hg
@@ -242,7 +256,8 @@ macro "nocopy_nf" F:ident Gnf:ident : tactic => `(tactic| (
           rw [ofInt_wrap 32 .u32 _ (by decide), be32_ofInt_nat]
         unfold $F
         rw [h1]
-        bsimp [c, c2, hl, vputU32_pre, vfrom_preK, l1, derefP, vlen_pre, h2, h3, e1, Int.reduceToNat]
+        bsimp [c, c2, hl, vputU32_pre, vfrom_preK, l1, derefP, vlen_pre, e1, Int.reduceToNat, Nat.add_zero]
+        refine wd_close hstep _ _ _ _ (by (try simp (disch := omega) only [wrap_i64_of_range]); omega)
   · have hg := $Gnf pre sb o v h hlen
     rw [if_neg c] at hg
     cases w with
@@ -259,7 +274,7 @@ macro "nocopy_nf" F:ident Gnf:ident : tactic => `(tactic| (
         bsimp [hg, c, c2, hl]
       · unfold $F
         rw [h1]
-        bsimp [c, c2, hl, vputU32_pre]))
+        bsimp [c, c2, hl, vputU32_pre, vfrom_preK, Int.reduceToNat, Nat.add_zero]))
 
 theorem gWriteStringNocopy_nf {ν : Type} (J : NocopyI ν) (w : Bool) (enc : Directs → Option ν) (H : NCOK J w enc)
     (pre sb : Bytes) (ds : Directs) (o : Nat) (v : Bytes) (h : o ≤ sb.length) (hlen : (pre ++ sb).length < 2 ^ 63) :
@@ -886,21 +901,35 @@ theorem blenKVs_ge (it : SMap) (off : Nat) : off ≤ blenKVs it off := by
     have := ih (off + (4 + k.length) + (4 + v.length))
     simp only [blenKVs]; omega
 
+/-- what the entries add to a length, whatever it was before -/
+def kvSum (it : SMap) : Nat := blenKVs it 0
+
+theorem blenKVs_shift (it : SMap) (off : Nat) : blenKVs it off = off + kvSum it := by
+  unfold kvSum
+  induction it generalizing off with
+  | nil => simp [blenKVs]
+  | cons kv r ih =>
+    obtain ⟨k, v⟩ := kv
+    simp only [blenKVs]
+    rw [ih (off + (4 + k.length) + (4 + v.length)), ih (0 + (4 + k.length) + (4 + v.length))]
+    omega
+
 /-- The BLength loop, for ANY function `L` that is done on the empty sequence and whose round on `kv :: rest` adds the two
-    string lengths (`h1`, stated on natural numbers: however the generated code parenthesises or orders the sum); `F` is
-    what the enclosing function does with the loop's outcome. `L` is found by unification, `h0` / `h1` are proved at the
-    use site by unfolding the generated loop function. -/
+    string lengths (`h1`, stated on natural numbers: however the generated code parenthesises or orders the sum), started
+    at ANY length `oi` (whatever the enclosing function has counted so far, in whatever order); `F` is what the enclosing
+    function does with the loop's outcome. `L` and `oi` are found by unification, `h0` / `h1` are proved at the use site by
+    unfolding the generated loop function. -/
 theorem blen_loop_bind {ρ : Type}
     {L : Nat → List (Bytes × Bytes) → Int → GM (LoopR Int (List (Bytes × Bytes) × Int))}
     {F : LoopR Int (List (Bytes × Bytes) × Int) → GM ρ} {R : GM ρ}
     (h0 : ∀ fuel off, L (fuel + 1) [] off = .ok (.done ([], off)))
     (h1 : ∀ fuel (kv : Bytes × Bytes) rest (off : Nat), off + (4 + kv.1.length) + (4 + kv.2.length) < 2 ^ 62 →
       L (fuel + 1) (kv :: rest) (off : Int) = L fuel rest ((off + (4 + kv.1.length) + (4 + kv.2.length) : Nat) : Int))
-    (it : List (Bytes × Bytes)) (fuel : Nat) (off : Nat) (oi : Int) (hf : it.length < fuel)
-    (hb : blenKVs it off < 2 ^ 62) (hoi : oi = (off : Int))
-    (hF : F (.done ([], ((blenKVs it off : Nat) : Int))) = R) :
+    (it : List (Bytes × Bytes)) (fuel : Nat) (oi : Int) (hf : it.length < fuel) (h0i : 0 ≤ oi)
+    (hb : oi + (kvSum it : Int) < 2 ^ 62)
+    (hF : F (.done ([], oi + (kvSum it : Int))) = R) :
     (L fuel it oi).bind F = R := by
-  subst hoi
+  obtain ⟨off, rfl⟩ : ∃ off : Nat, oi = (off : Int) := ⟨oi.toNat, by omega⟩
   have key : ∀ (it : List (Bytes × Bytes)) (fuel off : Nat), it.length < fuel → blenKVs it off < 2 ^ 62 →
       L fuel it (off : Int) = .ok (.done ([], ((blenKVs it off : Nat) : Int))) := by
     intro it
@@ -916,7 +945,7 @@ theorem blen_loop_bind {ρ : Type}
       have hge := blenKVs_ge rest (off + (4 + k.length) + (4 + v.length))
       simp only [blenKVs] at hb ⊢
       rw [h1 _ _ _ _ (by simp only; omega), ih fuel _ (by simp at hf; omega) hb]
-  rw [key it fuel off hf hb, Out.bind_ok, hF]
+  rw [key it fuel off hf (by rw [blenKVs_shift]; omega), Out.bind_ok, blenKVs_shift, Int.natCast_add, hF]
 
 /-- the round of the generated BLength loops: unfold whichever it is; the sum in `int` is the sum in `Nat` -/
 macro "blen_round" : tactic => `(tactic| (
@@ -949,11 +978,9 @@ theorem Base_BLength_eq (fuel : Nat) (it : List (Bytes × Bytes)) (p : Option Fu
       bsimp [derefP]
       blen_arith
     | some l =>
-      simp only [toBaseO, Option.map_some, bLengthBase, toBase, blenExtra, Nat.zero_add] at hb ⊢
-      generalize hN : 3 + (4 + logID.length) + 3 + (4 + caller.length) + 3 + (4 + addr.length) + 3 + 6 = N at hb ⊢
-      have hge := blenKVs_ge it N
+      simp only [toBaseO, Option.map_some, bLengthBase, toBase, blenExtra, Nat.zero_add, blenKVs_shift] at hb ⊢
       bsimp [derefP]
-      refine blen_loop_bind (by intros; rfl) (by blen_round) it fuel N _ hfuel (by omega) (by rw [← hN]; blen_arith) ?_
+      refine blen_loop_bind (by intros; rfl) (by blen_round) it fuel _ hfuel (by blen_arith) (by blen_arith) ?_
       bsimp
       blen_arith
 
@@ -974,11 +1001,10 @@ theorem BaseResp_BLength_eq (fuel : Nat) (it : List (Bytes × Bytes)) (p : Optio
       bsimp [derefP]
       blen_arith
     | some l =>
-      simp only [toBaseRespO, Option.map_some, bLengthBaseResp, toBaseResp, blenExtra, Nat.zero_add] at hb ⊢
-      generalize hN : 3 + (4 + msg.length) + 3 + 4 + 3 + 6 = N at hb ⊢
-      have hge := blenKVs_ge it N
+      simp only [toBaseRespO, Option.map_some, bLengthBaseResp, toBaseResp, blenExtra, Nat.zero_add,
+        blenKVs_shift] at hb ⊢
       bsimp [derefP]
-      refine blen_loop_bind (by intros; rfl) (by blen_round) it fuel N _ hfuel (by omega) (by rw [← hN]; blen_arith) ?_
+      refine blen_loop_bind (by intros; rfl) (by blen_round) it fuel _ hfuel (by blen_arith) (by blen_arith) ?_
       bsimp
       blen_arith
 
